@@ -206,18 +206,23 @@ impl Cache {
 
     pub(super) fn push_proc_pri(&self, proc: &Arc<Process>, save: bool) {
         debug!("push process pid={}", proc.id());
+        // the instance is known to the cache before its row can be seen in the store: a restore
+        // (after the end of another process) that finds the row of a process being launched
+        // must not build a second instance of it
+        self.procs.insert(proc.id().to_string(), proc.clone());
+        {
+            let mut live = self.live.lock().unwrap();
+            live.insert(proc.id().to_string(), Arc::downgrade(proc));
+            if live.len() > 1024 && live.len() > self.cap * 4 {
+                live.retain(|_, w| w.strong_count() > 0);
+            }
+        }
+        #[cfg(feature = "verif")]
+        crate::verif::pause("cache.push_proc");
         if save {
             self.store
                 .upsert_proc(proc)
                 .expect("fail to upsert process");
-        }
-        #[cfg(feature = "verif")]
-        crate::verif::pause("cache.push_proc");
-        self.procs.insert(proc.id().to_string(), proc.clone());
-        let mut live = self.live.lock().unwrap();
-        live.insert(proc.id().to_string(), Arc::downgrade(proc));
-        if live.len() > 1024 && live.len() > self.cap * 4 {
-            live.retain(|_, w| w.strong_count() > 0);
         }
     }
 
